@@ -60,14 +60,15 @@ type SrcSpec struct {
 // DstSpec scripts one destination.
 type DstSpec struct {
 	Procs     []ProcSpec `json:"procs"`
-	Nack      [][2]int   `json:"nack"`      // records whose ack reply carries an error
-	WriteErr  [][2]int   `json:"writeErr"`  // a Write containing one of these records fails
-	AckErrAt  int        `json:"ackErrAt"`  // the n-th Ack() call (1-based) fails; 0 = never
-	Chunks    []int      `json:"chunks"`    // sizes of successive ack replies (cyclic; empty = everything pending)
-	EmptyAcks int        `json:"emptyAcks"` // MALFORMED stream only: the first n Ack() replies are empty
-	Slow      bool       `json:"slow"`      // released only when nothing else is parked (most of the time)
-	Hold      bool       `json:"hold"`      // DIRECTED family: from its HoldFrom-th Write call on, this destination's Write gate
-	HoldFrom  int        `json:"holdFrom"`  // stays closed until the control action (cancel / stop) has fired
+	Nack      [][2]int   `json:"nack"`                // records whose ack reply carries an error
+	WriteErr  [][2]int   `json:"writeErr"`            // a Write containing one of these records fails
+	AckErrAt  int        `json:"ackErrAt"`            // the n-th Ack() call (1-based) fails; 0 = never
+	Chunks    []int      `json:"chunks"`              // sizes of successive ack replies (cyclic; empty = everything pending)
+	EmptyAcks int        `json:"emptyAcks"`           // MALFORMED stream only: the first n Ack() replies are empty
+	Slow      bool       `json:"slow"`                // released only when nothing else is parked (most of the time)
+	ChunkLess int        `json:"chunkLess,omitempty"` // LARGE-BATCH family: every ack reply covers all but this many of the outstanding records
+	Hold      bool       `json:"hold"`                // DIRECTED family: from its HoldFrom-th Write call on, this destination's Write gate
+	HoldFrom  int        `json:"holdFrom"`            // stays closed until the control action (cancel / stop) has fired
 }
 
 // DlqSpec scripts the dead-letter queue.
@@ -98,6 +99,7 @@ type Case struct {
 	Ctl        *CtlSpec   `json:"ctl,omitempty"`
 	GoMaxProcs int        `json:"gomaxprocs"`
 	Malformed  bool       `json:"malformed"`
+	Big        bool       `json:"big,omitempty"` // LARGE-BATCH family (v2): batches of up to 8000 records, log checked in range form
 }
 
 // eachProc visits every processor script of the case.
@@ -140,10 +142,13 @@ func CaseFromJSON(m map[string]any) Case {
 	}
 	for _, s := range c.Sources {
 		for _, b := range s.Batches {
-			if b < 1 || b > 64 {
+			if b < 1 || (b > 64 && !c.Big) || b > 8000 {
 				panic("batch")
 			}
 		}
+	}
+	if c.Big && c.Engine != "v2" {
+		panic("big")
 	}
 	if c.GoMaxProcs < 1 {
 		c.GoMaxProcs = 4
